@@ -264,6 +264,24 @@ class Interp:
             self.env[name] = a
             self.k.arrays[a.name] = a
             return a
+        # an array variable that is rebound inside a loop (allocated in the first pass, filled in the second): the
+        # loop-carried symbol names an opaque array
+        if isinstance(v, Rat) and v.d.is_const() and len(v.n.t) == 1:
+            (mm, c), = v.n.t.items()
+            at = mm[0][0] if len(mm) == 1 and mm[0][1] == 1 and c == v.d.const_value() else None
+            nm = None
+            if isinstance(at, Sym) and '~loop' in at.name and name is not None and at.name.startswith(name + '~'):
+                nm = at.name
+            elif isinstance(at, App) and name is not None and (at.name == 'loopout' or at.name in ('method:reshape', 'method:ravel')) \
+                    and repr(at).count('loopout(%s,' % name):
+                nm = repr(at)       # the same variable after the loop / reshaped: still an opaque array
+            if nm is not None:
+                a = self.k.arrays.get(nm)
+                if a is None:
+                    a = Arr(nm, 'carried')
+                    a.var = name
+                    self.k.arrays[nm] = a
+                return a
         return None
 
     def row_alias(self, base):
@@ -399,7 +417,11 @@ class Interp:
     def ev_Set(self, e):
         return TupleV([self.ev(x) for x in e.elts])
 
-    ev_List = ev_Tuple
+    def ev_List(self, e):      # noqa: F811
+        v = self.ev_Tuple(e)
+        if isinstance(v, TupleV) and not v.items:
+            v.islist = True     # an empty list that will be filled by append: `events` records which one
+        return v
 
     def ev_GeneratorExp(self, e):
         if len(e.generators) != 1 or e.generators[0].ifs or not isinstance(e.generators[0].target, ast.Name):
@@ -757,7 +779,19 @@ class Interp:
         if isinstance(obj, View) and meth in ('min', 'max', 'sum', 'mean', 'std', 'var', 'any', 'all'):
             return Rat.atom(App('reduce:' + meth, [self.as_scalar(obj)]))
         if meth == 'append':
-            self.k.calls.append(('append', [obj] + [self.ev(a) for a in e.args], list(self.guards), e))
+            vals = [self.ev(a) for a in e.args]
+            self.k.calls.append(('append', [obj] + vals, list(self.guards), e))
+            # which list: `name.append(v)` or `name[index].append(v)` (a list of lists)
+            tv = e.func.value
+            target = None
+            if isinstance(tv, ast.Name):
+                target = (tv.id, None)
+            elif isinstance(tv, ast.Subscript) and isinstance(tv.value, ast.Name):
+                try:
+                    target = (tv.value.id, self.as_scalar(self.ev(tv.slice)))
+                except AnalysisIncomplete:
+                    target = (tv.value.id, 'unknown')
+            self.k.events.append(('append', (target, vals, list(self.guards), e, list(self.loops))))
             return None
         args = [self.arg_key(self.ev(a)) for a in e.args]
         return Rat.atom(App('method:' + meth, [self.arg_key(obj) if obj is not None else Rat.const(0)] + args))
@@ -1006,6 +1040,8 @@ class Interp:
                 self.k.arrays[v.name] = v
                 v.alloc_loops = list(self.loops)
                 self.k.events.append(('alloc', v))
+            if isinstance(v, TupleV) and getattr(v, 'islist', False) and not hasattr(v, 'var'):
+                v.var = t.id
             self.env[t.id] = v
             return
         if isinstance(t, (ast.Tuple, ast.List)):
